@@ -30,6 +30,20 @@ void j_sqrt_acc(Ctx & c, int64_t x, int64_t, int64_t)
         c.violation(SQRT3[k].entry + "[" + (k == 0 ? (g_cfgs[ci].sqrt_algo == 1 ? "abacus" : "std") : "direct") + "]/" + sqrt_range_class(x) + (r.v < 0 || model_isnan(r.v) ? "/negative-or-nan" : "/off-by-one-ulp-or-more"), (int)ci, x, 0, 0, i2s(r.v), "within 1 raw of sqrt(" + i2s(x) + "*65536)");
       }
   }
+// history: one call of sqrt per configuration and input, so that every configuration sees a long run of consecutive DISTINCT
+// arguments on the same thread (j_sqrt_acc calls three entry points with the same x). Round 11 (C12-x1, C13-x1, C14-x1): a
+// thread_local "last root" memo keyed by 32 bits of a hash returns a stale root on a 2^-32 collision between consecutive calls.
+void j_sqrt_hist(Ctx & c, int64_t x, int64_t, int64_t)
+  {
+  if(x < 0 || x >= (1ll << 47)) return;
+  c.stratum("sqrt-consecutive-distinct");
+  for(size_t ci = 0; ci < g_cfgs.size(); ++ci)
+    {
+    CALLG(r, SQRT3[0], x, 0)
+    if(!sqrt_within_one(r.v, x))
+      c.violation(std::string("sqrt[") + (g_cfgs[ci].sqrt_algo == 1 ? "abacus" : "std") + "]/after-other-calls/" + (r.v < 0 || model_isnan(r.v) ? "negative-or-nan" : "off-by-one-ulp-or-more"), (int)ci, x, 0, 0, i2s(r.v), "within 1 raw of sqrt(" + i2s(x) + "*65536)");
+    }
+  }
 void j_sqrt_neg(Ctx & c, int64_t x, int64_t, int64_t)
   {
   if(x >= 0 || x == INT64_MIN) return;
@@ -113,13 +127,17 @@ void c13_run(Ctx & c)
   for(int64_t x : lattice_with({ RAW_NNAN })) if(x < 0 && c.mine(idx++)) c.run_check(NEG, x);
   uint64_t n = c.share(c.n(200000, 20000000));
   for(uint64_t i = 0; i < n; ++i) c.run_check(NEG, -c.rng.logu_pos());
+  // history family (thorough: 2e9 consecutive distinct arguments per configuration, spread over the worker threads)
+  n = c.share(c.n(2000000, 2000000000));
+  for(uint64_t i = 0; i < n; ++i) c.run_check(P_C13.checks[4], (int64_t)(c.rng.next() >> 17));
   }
 Property P_C13 = { "C13", c13_init, c13_run,
   { { "sqrt_acc", j_sqrt_acc, "sqrt, sqrt_abacus, sqrt_std_math: r >= 0 and (r-1)^2 < x*2^16 < (r+1)^2; a = raw x in [0,2^47)" },
     { "sqrt_neg", j_sqrt_neg, "NaN for x < 0; a = raw" },
     { "sqrt_mono", j_sqrt_mono, "x <= y => sqrt(x) <= sqrt(y); a = x, b = y" },
-    { "sqrt_square", j_sqrt_square, "sqrt(n*n) == n for n = 256*a raw" } },
-  { "sqrt-x>=2^30", "sqrt-zero", "sqrt-x<2^30", "sqrt-negative", "sqrt-monotone-pair", "sqrt-perfect-square", "sqrt-just-below-perfect-square" },
+    { "sqrt_square", j_sqrt_square, "sqrt(n*n) == n for n = 256*a raw" },
+    { "sqrt_history", j_sqrt_hist, "sqrt only, once per configuration: r >= 0 and (r-1)^2 < x*2^16 < (r+1)^2 after a run of other arguments on the same thread; a = raw x in [0,2^47)" } },
+  { "sqrt-x>=2^30", "sqrt-zero", "sqrt-x<2^30", "sqrt-negative", "sqrt-monotone-pair", "sqrt-perfect-square", "sqrt-just-below-perfect-square", "sqrt-consecutive-distinct" },
   "x within 4 raw of a power of two, x >= 2^46 raw (abacus intermediate frontier), x < 4, every perfect square, negative arguments next to 0 / lowest(); distinct by x",
   { "every raw x in [0,2^21)", "every 23rd perfect square n=256m, m <= 11863283", "every x with x*2^16 = k^2-1 below 2^47 (185,362 values) and its neighbours" },
   { "every raw x in [0,2^26)", "every representable perfect square n=256m, m <= 11863283", "every x with x*2^16 = k^2-1 below 2^47 (185,362 values) and its neighbours" } };
